@@ -57,7 +57,7 @@ reg("C03", GEN_TXT + "distinct = distinct (shape, digest); non-trivial = at leas
     "(exit code / signal / fork failure / exec failure) so the fail/skip closure is exercised",
     quick_count=1200)
 reg("C04", GEN_TXT + "distinct = distinct (shape, digest); non-trivial = at least one task process was "
-    "spawned (slot and exclusivity rules evaluated at every spawn/exit)", quick_count=1200)
+    "spawned (slot and exclusivity rules evaluated at every spawn/exit)", quick_count=4000)
 reg("C09", GEN_TXT + "child exits land at arbitrary monitoring instants (LINE/CALL/PY_START/C_RETURN of "
     "conductor.* and subprocess.Popen); distinct = distinct (shape, digest); non-trivial = at least one "
     "task process ran to completion under the interposed kernel", quick_count=1500)
@@ -65,7 +65,7 @@ reg("C05", "scenario = 2-5 tasks (mostly experiments) + history interleaving git
     "checkout incl. detached, merge, dirty, init of a foreign repository) with cond run (default/--again/"
     "--at-least SYM/--this-commit), cond where, config toggles of disable_git and archive/restore of foreign "
     "rows; distinct = distinct (shape, digest); non-trivial = a run or where whose outcome depends on the "
-    "selection rule (model plan non-empty, or flag validation exercised)", quick_count=1500)
+    "selection rule (model plan non-empty, or flag validation exercised)", quick_count=3000)
 reg("C07", GEN_TXT + "args/options of every primitive type, nested packages, invocation from drawn working "
     "directories, conductor.lib evaluated inside the stub child under its environment; distinct = distinct "
     "(shape, digest); non-trivial = at least one task process was spawned and its argv/cwd/env compared with "
